@@ -409,7 +409,35 @@ def sweep(ctx):
     ctx.ob("R10.6", "floor", n >= 1, "%d Ok path(s)" % n)
 
 
+def no_shadowing(ctx, rule):
+    """Method resolution prefers a trait method whose receiver matches one probe step earlier (`&mut self` on a
+    `&mut ClientConnection`) over the inherent method of the same name: a crate-local trait impl for a server /
+    connection type that reuses the name of one of its inherent methods silently replaces it at unchanged call sites."""
+    facts = ctx.facts
+    inherent = {}
+    for name in facts.fns:
+        if name.startswith("<"):
+            continue
+        parts = name.split("::")
+        if len(parts) >= 3 and not name.endswith("}"):
+            inherent.setdefault("::".join(parts[:-1]).replace("::<T>", ""), set()).add(parts[-1])
+    n = 0
+    for name in sorted(facts.fns):
+        if not name.startswith("<") or " as " not in name or name.endswith("}"):
+            continue
+        head, meth = name.rsplit(">::", 1)
+        ty, tr = head[1:].split(" as ", 1)
+        if tr.split("::")[0] in ("std", "core", "alloc"):
+            continue        # a std trait (Display, Drop, From ...): not a name the crate can collide with on purpose
+        tyk = ty.split("<")[0]
+        n += 1
+        clash = meth in inherent.get(tyk, set())
+        ctx.ob(rule, "no-shadowing|%s" % name, not clash, "%s: a crate-local trait gives %s a method named like its inherent %s::%s; unchanged call sites may resolve to the trait method" % (name, tyk, tyk, meth), facts.fns[name].loc(0))
+    ctx.ob(rule, "no-shadowing|scanned", True, "%d crate-local trait method(s) on crate types compared with the inherent methods" % n)
+
+
 def is_done(ctx, rule):
+    no_shadowing(ctx, rule)
     """On every path on which is_done() may return true, the three facts are established -- by a test on the path or by the
     returned expression itself (a conjunction): state == Closed, !pending_write(), in_flight_response_count == 0.
     Spellings: `a && b && c`, a `matches!` over the tuple, a helper of a private sub-struct traversed inline."""
